@@ -122,3 +122,34 @@ def coq_tree(t, sid, nid):
     if t[0] == "other": raise Untranslatable("non-tree value")
     if t[0] not in nid: raise Untranslatable(f"node name {t[0]}")
     return f"(TNode {cpos(nid[t[0]])} {clist(coq_tree(x, sid, nid) for x in t[1])})"
+
+def parser_defs():
+    """Coq definitions of the shipped parser for other checks (C13, C17): scanner data, rules, both start tables, the names record"""
+    import c16
+    mod = c16.load_module(os.path.join(c16.SRCDIR, "_parser.py"), "shipped_parser_lexgen")
+    A = c16.canon(mod.DATA, mod.MEMO)
+    names = sorted({k for row in A["states"].values() for k in row} | {t[0] for t in A["terminals"]} | {"$END"})
+    sid = {n: i + 1 for i, n in enumerate(names)}
+    allrules = sorted(set(A["rules"]), key=repr)
+    rid = {r: i for i, r in enumerate(allrules)}
+    ltxt, nid, _ = model(A, sid, allrules)
+    def ctable(start):
+        n = max(A["states"]) + 1
+        rows = []
+        for s in range(n):
+            row = A["states"].get(s, {})
+            rows.append(clist(f"({cpos(sid[k])}, {'Shift ' + cnat(v[1]) if v[0] == 0 else 'Reduce ' + cnat(rid[v[1]])})" for k, v in sorted(row.items())))
+        return f"(MkT {clist(rows)} {cnat(A['start_states'][start])} {cnat(A['end_states'][start])})"
+    need = ("unit", "unit_sequence", "term", "carat_exponent", "superscript_exponent")
+    for n in need:
+        if n not in nid: raise Untranslatable(f"the grammar has no node named {n}")
+    for t in ("SYMBOL", "CARAT_EXPONENT", "SUPERSCRIPT_EXPONENT"):
+        if t not in sid: raise Untranslatable(f"the grammar has no terminal {t}")
+    txt = ("From Coq Require Import NArith PArith.\nFrom Measured Require Import Model.LR Model.Lex Model.TextParse.\n" + ltxt +
+           f"Definition lr_rules : list rule := {clist(f'(MkRule {cpos(sid[r[0]])} {cnat(len(r[1]))})' for r in allrules)}.\n"
+           f"Definition lr_terminals : list positive := {clist(cpos(sid[t[0]]) for t in sorted(A['terminals']))}.\n"
+           f"Definition end_sym : positive := {cpos(sid['$END'])}.\n"
+           f"Definition T_unit : table := {ctable('unit')}.\nDefinition T_quantity : table := {ctable('quantity')}.\n"
+           f"Definition NM : names := MkNames {cpos(nid['unit'])} {cpos(nid['unit_sequence'])} {cpos(nid['term'])} {cpos(nid['carat_exponent'])} "
+           f"{cpos(nid['superscript_exponent'])} {cpos(sid['SYMBOL'])} {cpos(sid['CARAT_EXPONENT'])} {cpos(sid['SUPERSCRIPT_EXPONENT'])}.\n")
+    return txt
